@@ -397,6 +397,13 @@ def norm_msg(msg):
     return re.sub(r"\d+", "N", m)[:80]
 
 
+def norm_diff(d):
+    """class of a structural difference: symbols, numbers and quoted source text abstracted"""
+    d = d.split("`")[0]
+    d = re.sub(r"[A-Za-z_]\w*_\d+", "S", d)
+    return re.sub(r"\d+", "N", d).strip()[:70]
+
+
 class Excluded(Exception):
     def __init__(self, reason, detail=""):
         super().__init__(f"{reason}: {detail}")
@@ -742,7 +749,12 @@ class Observer:
             self.cnt("traversal-differs")
             self.record("tie", "printer-traversal", f"PrintEnv operations performed while printing the result of {op} differ from the walk of the LoopIR",
                         att, hist, text=text, expected_ops=want, performed_ops=got)
-        else:
+        elif self.ntr < self.max_traces and (shared or self.ntr == 0):
+            self.ntr += 1
+            self.rec.setdefault("traces", []).append({"ops": got, "names": names})
+        # two distinct live symbols shown alike?  (scopes: the walker's; names: the real printer's,
+        # usable whenever the printer asked for the same symbols in the same order)
+        if [o[1] for o in ops if o[0] == "g"] == [o[1] for o in w.ops if o[0] == "g"]:
             cols = live_collisions(w, names)
             for (nm, s1, s2) in cols[:1]:
                 key = classify_collision(nm, s1, s2)
@@ -753,9 +765,6 @@ class Observer:
                 # reading this text back fails for the same reason; reported once
                 self.cnt("reparse-skipped:name-collision-reported")
                 return
-            if self.ntr < self.max_traces and (shared or self.ntr == 0):
-                self.ntr += 1
-                self.rec.setdefault("traces", []).append({"ops": got, "names": names})
         if w.ill_scoped:
             self.cnt("excluded:derived-procedure-ill-scoped")
             return
@@ -804,7 +813,7 @@ class Observer:
         d = uast_differs(ir, rr.uast)
         if d is not None:
             self.cnt("reread-differs")
-            self.record("violation", f"reparse:reads-back-differently:{op}", f"the text printed after {op} does not read back as the procedure: {d}",
+            self.record("violation", "reparse:reads-back-differently:" + norm_diff(d), f"the text printed after {op} does not read back as the procedure: {d}",
                         att, hist, text=text)
             return
         self.cnt("structure-verified")
